@@ -22,9 +22,9 @@ sequences (honest, per-write encoded, mark-less, corrupted) in random packetisat
 Text receivers: one decoder PER DATA TYPE (Model/ChannelDecode.lean; theorems text_per_datatype_as_written /
 text_per_datatype_end_to_end: text per data type is a function of the bytes per data type, whatever is interleaved;
 no_decode_error_after_local_close: after the application's close() no event raises a decode error), with the
-behaviour before the repairs 7b04301 / 9fcdbb2 kept as `Variant.preFix` and witness theorems
+behaviour before the repairs 98283c0 / afe8b9e kept as `Variant.preFix` and witness theorems
 (shared_decoder_breaks_split_character_preFix, close_midchar_then_eof_fatal_preFix); a second `shell` request
-(repair b98700f: refused; witness second_session_request_delivered_behind_pause_preFix) and the layer-3 tunnel channel
+(repair e7dbee0: refused; witness second_session_request_delivered_behind_pause_preFix) and the layer-3 tunnel channel
 (Model/ChannelVariants.lean; tun_packet_cut_at_window_edge_loses_bytes is a witness of a defect that is NOT repaired).
 The scripted cases include: a bytes sender whose data types are each valid UTF-8 but interleaved in the middle of a
 character; a text receiver closing in the middle of a character while the honest peer goes on to EOF / CLOSE; a
@@ -69,11 +69,11 @@ MANIFEST = {
             'encoding each write on its own delivers U+FEFF in front of every later write; '
             'text receivers keep one decoder per data type: the text delivered with each data type is a function of '
             'the bytes written with it, whatever packets of other data types arrive in between, also in the middle of '
-            'a character (text_per_datatype_as_written, text_per_datatype_end_to_end; before repair 7b04301 one '
+            'a character (text_per_datatype_as_written, text_per_datatype_end_to_end; before repair 98283c0 one '
             'decoder was shared: witness shared_decoder_breaks_split_character_preFix); after the application\'s '
-            'close() no event raises a decode error (no_decode_error_after_local_close; before repair 9fcdbb2 the '
+            'close() no event raises a decode error (no_decode_error_after_local_close; before repair afe8b9e the '
             'honest peer\'s EOF did: witness close_midchar_then_eof_fatal_preFix); a second shell / exec / subsystem '
-            'request is refused (tie second_session_request_refused, witness for the code before repair b98700f); '
+            'request is refused (tie second_session_request_refused, witness for the code before repair e7dbee0); '
             'layer-3 tunnel packets cut at the window edge lose bytes (witness, not repaired: known finding); '
             'per-channel projection of a multiplexed run. The model is tied to the code by the translator '
             '(send-loop arithmetic from the AST) and by a differential run against two real endpoints driven packet by '
